@@ -229,7 +229,7 @@ fn gen_message(src: &mut Src) -> (proto::Library, Vec<(i16, i16, i16)>) {
                 for k in 0..src.usize_in(0, 3) {
                     let t = targets[src.index(targets.len())];
                     lay.instances.push(proto::Instance {
-                        name: format!("i{}", k),
+                        name: crate::gen::rawlib::gen_inst_name(src, k),
                         cell: Some(proto::Reference { to: Some(proto::reference::To::Local(cells[t].name.clone())) }),
                         origin_location: Some(ppt((src.signed(3000), src.signed(3000)))),
                         reflect_vert: src.bool(),
